@@ -11,6 +11,12 @@ From J2O Require Import Onnx.
 From J2OGen Require Import GenShapes.
 Import ListNotations.
 Local Open Scope nat_scope.
+(* every automation call runs under a time limit *)
+Ltac tlia := timeout 20 lia.
+Ltac au := timeout 20 auto.
+Ltac eau := timeout 20 eauto.
+Ltac tau := timeout 20 tauto.
+Ltac cong := timeout 20 congruence.
 
 (* ================================================================= 1. concrete broadcasting *)
 Definition bdim (a b : nat) : option nat :=
@@ -52,9 +58,9 @@ Proof.
 Qed.
 Lemma bdim_cases x y m : bdim x y = Some m -> (x = m /\ y = m) \/ (x = 1 /\ y = m) \/ (y = 1 /\ x = m).
 Proof.
-  unfold bdim. destruct (Nat.eqb_spec x y); [intro H; injection H as <-; subst; auto|].
-  destruct (Nat.eqb_spec x 1); [intro H; injection H as <-; auto|].
-  destruct (Nat.eqb_spec y 1); [intro H; injection H as <-; auto|]. discriminate.
+  unfold bdim. destruct (Nat.eqb_spec x y); [intro H; injection H as <-; subst; au|].
+  destruct (Nat.eqb_spec x 1); [intro H; injection H as <-; au|].
+  destruct (Nat.eqb_spec y 1); [intro H; injection H as <-; au|]. discriminate.
 Qed.
 
 Lemma nth_nil_1 k : nth k (@nil nat) 1 = 1.
@@ -67,11 +73,11 @@ Proof.
   induction a as [|x a IH]; intros b r H.
   - simpl in H. injection H as <-. split; [reflexivity|]. intro k. rewrite nth_nil_1. apply bdim_1_l.
   - destruct b as [|y b].
-    + simpl in H. injection H as <-. split; [simpl; lia|]. intro k. rewrite nth_nil_1. apply bdim_1_r.
+    + simpl in H. injection H as <-. split; [simpl; tlia|]. intro k. rewrite nth_nil_1. apply bdim_1_r.
     + simpl in H. destruct (bdim x y) as [d|] eqn:Ed; [|discriminate].
       destruct (bcast_rev a b) as [r'|] eqn:Er; [|discriminate]. injection H as <-.
-      destruct (IH _ _ Er) as [Hl Hk]. split; [simpl; lia|].
-      intros [|k]; simpl; auto.
+      destruct (IH _ _ Er) as [Hl Hk]. split; [simpl; tlia|].
+      intros [|k]; simpl; au.
 Qed.
 
 Definition cfold (col : list nat) : option nat :=
@@ -80,14 +86,14 @@ Definition cfold (col : list nat) : option nat :=
 Lemma cfold_P col : forall m, cfold col = Some m -> ColP col m.
 Proof.
   induction col as [|x col IH]; intros m H.
-  - simpl in H. injection H as <-. split; [intros x []|auto].
+  - simpl in H. injection H as <-. split; [intros x []|au].
   - simpl in H. destruct (cfold col) as [a|] eqn:Ea; [|discriminate].
     destruct (IH _ eq_refl) as [H1 H2].
     destruct (bdim_cases _ _ _ H) as [[-> ->]|[[-> ->]|[-> ->]]].
-    + split; [intros y [<-|Hy]; auto|right; left; reflexivity].
-    + split; [intros y [<-|Hy]; auto|]. destruct H2; [auto|right; right; auto].
-    + split; [intros y [<-|Hy]; auto|right; left; reflexivity].
-      destruct (H1 _ Hy); subst; auto.
+    + split; [intros y [<-|Hy]; au|right; left; reflexivity].
+    + split; [intros y [<-|Hy]; au|]. destruct H2; [au|right; right; au].
+    + split; [intros y [<-|Hy]; au|right; left; reflexivity].
+      destruct (H1 _ Hy); subst; au.
 Qed.
 
 Lemma list_max_nat_cons {A} (f : A -> nat) x l :
@@ -98,15 +104,15 @@ Lemma bcast_inv s acc r : bcast s acc = Some r ->
   exists r', bcast_rev (rev s) (rev acc) = Some r' /\ r = rev r'.
 Proof.
   unfold bcast. destruct (bcast_rev (rev s) (rev acc)) as [r'|]; simpl; [|discriminate].
-  intro H. injection H as <-. eauto.
+  intro H. injection H as <-. eau.
 Qed.
 
 Lemma ColP_cons x col a m : ColP col a -> bdim x a = Some m -> ColP (x :: col) m.
 Proof.
   intros [H1 H2] H. destruct (bdim_cases _ _ _ H) as [[E1 E2]|[[E1 E2]|[E1 E2]]]; subst.
-  - split; [intros y [<-|Hy]; auto|right; left; reflexivity].
-  - split; [intros y [<-|Hy]; auto|]. destruct H2; [auto|right; right; auto].
-  - split; [|right; left; reflexivity]. intros y [<-|Hy]; auto. destruct (H1 _ Hy); auto.
+  - split; [intros y [<-|Hy]; au|right; left; reflexivity].
+  - split; [intros y [<-|Hy]; au|]. destruct H2; [au|right; right; au].
+  - split; [|right; left; reflexivity]. intros y [<-|Hy]; au. destruct (H1 _ Hy); au.
 Qed.
 
 Theorem bcast_list_Broadcast cs : forall cr, bcast_list cs = Some cr -> Broadcast cs cr.
@@ -162,8 +168,8 @@ Qed.
 Lemma denote_dim_ok rho d n : (forall z, d = DInt z -> (0 <= z)%Z) ->
   (forall m, denote_dim rho d = Some m -> m = n) -> dim_ok rho d n.
 Proof.
-  destruct d; simpl; intros Hz H; auto.
-  specialize (Hz _ eq_refl). destruct (n0 <? 0)%Z eqn:L; [apply Z.ltb_lt in L; lia|].
+  destruct d; simpl; intros Hz H; au.
+  specialize (Hz _ eq_refl). destruct (n0 <? 0)%Z eqn:L; [apply Z.ltb_lt in L; tlia|].
   rewrite <- (H _ eq_refl). symmetry. apply Z2Nat.id. exact Hz.
 Qed.
 
@@ -171,11 +177,11 @@ Qed.
 (* generic facts about the loop combinator of the translation *)
 Lemma py_for_ext {A S} (l : list A) (b1 b2 : A -> S -> step S) :
   (forall x s, b1 x s = b2 x s) -> forall s, py_for l s b1 = py_for l s b2.
-Proof. intro E. induction l as [|x l IH]; intro s; simpl; [reflexivity|]. rewrite E. destruct (b2 x s); auto. Qed.
+Proof. intro E. induction l as [|x l IH]; intro s; simpl; [reflexivity|]. rewrite E. destruct (b2 x s); au. Qed.
 
 Lemma py_for_map {A B S} (f : A -> B) (l : list A) (body : B -> S -> step S) : forall s,
   py_for (map f l) s body = py_for l s (fun x => body (f x)).
-Proof. induction l as [|x l IH]; intro s; simpl; [reflexivity|]. destruct (body (f x) s); auto. Qed.
+Proof. induction l as [|x l IH]; intro s; simpl; [reflexivity|]. destruct (body (f x) s); au. Qed.
 
 Lemma py_for_snoc_map {A B} (f : A -> B) (l : list A) (body : A -> list B -> step (list B)) :
   (forall x st, body x st = Next (st ++ [f x])) -> forall st, py_for l st body = Some (st ++ map f l).
@@ -206,10 +212,10 @@ Lemma all_some_nth {A} (l : list (option A)) : forall r, all_some l = Some r ->
   length r = length l /\ forall i d, i < length l -> nth i l None = Some (nth i r d).
 Proof.
   induction l as [|[x|] l IH]; intros r H; simpl in H; try discriminate.
-  - injection H as <-. split; [reflexivity|]. intros i d Hi. simpl in Hi. lia.
+  - injection H as <-. split; [reflexivity|]. intros i d Hi. simpl in Hi. tlia.
   - destruct (all_some l) as [xs|]; [|discriminate]. injection H as <-.
-    destruct (IH _ eq_refl) as [Hl Hn]. split; [simpl; lia|].
-    intros [|i] d Hi; simpl; [reflexivity|]. apply Hn. simpl in Hi. lia.
+    destruct (IH _ eq_refl) as [Hl Hn]. split; [simpl; tlia|].
+    intros [|i] d Hi; simpl; [reflexivity|]. apply Hn. simpl in Hi. tlia.
 Qed.
 
 (* a readable form of the loop body: how one more operand dim [d] updates the resolved dim of an axis *)
@@ -249,7 +255,7 @@ Proof.
   destruct (Nat.eqb R 0); [reflexivity|].
   erewrite (py_for_snoc_map (pad_to R)).
   2:{ intros x st. cbv beta. unfold pad_to. destruct (Nat.ltb_spec (length x) R) as [L|L]; [reflexivity|].
-      replace (R - length x) with 0 by lia. reflexivity. }
+      replace (R - length x) with 0 by tlia. reflexivity. }
   simpl app.
   erewrite (py_for_snoc_opt (resolve_axis (map (pad_to R) S))).
   2:{ intros axis st. cbv beta. unfold resolve_axis. rewrite py_for_map.
@@ -281,8 +287,8 @@ Proof.
     repeat match goal with
            | H : _ \/ _ |- _ => destruct H
            | H : _ /\ _ |- _ => destruct H
-           end; subst; try lia; try tauto; auto;
-    try (left; lia); try (right; split; [assumption|]; tauto).
+           end; subst; try tlia; try tau; au;
+    try (left; tlia); try (right; split; [assumption|]; tau).
 Qed.
 
 Lemma col_sound rho m ds vs : Forall2 (dim_ok rho) ds vs ->
@@ -294,13 +300,13 @@ Proof.
   - injection Hp as <-. destruct Hinv as [H|[_ []]]. exact H.
   - destruct (resolve_step res d) as [res'|] eqn:Es; [|discriminate].
     apply (IH (fun x Hx => Hall x (or_intror Hx)) res' r); [|exact Hp].
-    eapply resolve_step_inv; eauto. apply Hall. left. reflexivity.
+    eapply resolve_step_inv; eau. apply Hall. left. reflexivity.
 Qed.
 
 Lemma col_sound_P rho ds vs m r : Forall2 (dim_ok rho) ds vs -> ColP vs m ->
   py_for ds (DInt 1) (fun d res => resolve_step res d) = Some r -> dim_ok rho r m.
 Proof.
-  intros HF [H1 H2] Hp. eapply col_sound; eauto.
+  intros HF [H1 H2] Hp. eapply col_sound; eau.
   destruct H2 as [->|H2]; [left; reflexivity|right; split; [reflexivity|exact H2]].
 Qed.
 
@@ -308,24 +314,24 @@ Lemma Forall2_nth {A B} (P : A -> B -> Prop) (l : list A) (l' : list B) da db :
   length l = length l' -> (forall i, i < length l -> P (nth i l da) (nth i l' db)) -> Forall2 P l l'.
 Proof.
   revert l'. induction l as [|x l IH]; intros [|y l'] Hl Hn; simpl in Hl; try discriminate; constructor.
-  - apply (Hn 0). simpl. lia.
-  - apply IH; [lia|]. intros i Hi. apply (Hn (S i)). simpl. lia.
+  - apply (Hn 0). simpl. tlia.
+  - apply IH; [tlia|]. intros i Hi. apply (Hn (S i)). simpl. tlia.
 Qed.
 Lemma Forall2_nth_inv {A B} (P : A -> B -> Prop) (l : list A) (l' : list B) da db :
   Forall2 P l l' -> forall i, i < length l -> P (nth i l da) (nth i l' db).
 Proof.
-  induction 1 as [|x y l l' Hxy HF IH]; intros i Hi; simpl in Hi; [lia|].
-  destruct i; simpl; [exact Hxy|]. apply IH. lia.
+  induction 1 as [|x y l l' Hxy HF IH]; intros i Hi; simpl in Hi; [tlia|].
+  destruct i; simpl; [exact Hxy|]. apply IH. tlia.
 Qed.
 
 Lemma F2_length {A B} (P : A -> B -> Prop) l l' : Forall2 P l l' -> length l = length l'.
-Proof. induction 1; simpl; congruence. Qed.
+Proof. induction 1; simpl; cong. Qed.
 
 Lemma nth_repeat_lt {A} (a d : A) n : forall i, i < n -> nth i (repeat a n) d = a.
-Proof. induction n as [|n IH]; intros i Hi; [lia|]. destruct i; simpl; [reflexivity|]. apply IH. lia. Qed.
+Proof. induction n as [|n IH]; intros i Hi; [tlia|]. destruct i; simpl; [reflexivity|]. apply IH. tlia. Qed.
 
 Lemma list_max_nat_ge l x : In x l -> x <= list_max_nat l.
-Proof. induction l as [|y l IH]; intros []; simpl; [subst; lia|]. specialize (IH H). lia. Qed.
+Proof. induction l as [|y l IH]; intros []; simpl; [subst; tlia|]. specialize (IH H). tlia. Qed.
 
 (* the dim of a padded annotation at [axis] and the run-time extent [R-1-axis]-th from the right agree *)
 Lemma padded_dim_ok rho R s c axis : shape_ok rho s c -> length s <= R -> axis < R ->
@@ -334,19 +340,19 @@ Proof.
   intros HF HL Ha. pose proof (F2_length _ _ _ HF) as El. unfold pad_to, dim_at.
   destruct (Nat.lt_ge_cases axis (R - length s)) as [Lt|Ge].
   - rewrite app_nth1 by (rewrite repeat_length; exact Lt).
-    rewrite nth_repeat_lt by exact Lt. rewrite nth_overflow by (rewrite rev_length; lia). reflexivity.
+    rewrite nth_repeat_lt by exact Lt. rewrite nth_overflow by (rewrite rev_length; tlia). reflexivity.
   - rewrite app_nth2 by (rewrite repeat_length; exact Ge). rewrite repeat_length.
-    rewrite rev_nth by lia.
-    replace (length c - S (R - 1 - axis)) with (axis - (R - length s)) by lia.
-    apply Forall2_nth_inv; [exact HF|lia].
+    rewrite rev_nth by tlia.
+    replace (length c - S (R - 1 - axis)) with (axis - (R - length s)) by tlia.
+    apply Forall2_nth_inv; [exact HF|tlia].
 Qed.
 
 Lemma cols_ok rho R i S cs : Forall2 (shape_ok rho) S cs -> (forall s, In s S -> length s <= R) -> i < R ->
   Forall2 (dim_ok rho) (map (fun s => nth i (pad_to R s) DUnk) S) (map (fun c => dim_at c (R - 1 - i)) cs).
 Proof.
   induction 1 as [|s c S cs H HF IH]; intros HR Hi; simpl; constructor.
-  - apply padded_dim_ok; auto. apply HR. left. reflexivity.
-  - apply IH; auto. intros s' Hs'. apply HR. right. exact Hs'.
+  - apply padded_dim_ok; au. apply HR. left. reflexivity.
+  - apply IH; au. intros s' Hs'. apply HR. right. exact Hs'.
 Qed.
 
 (* MAIN (relational form): whenever the annotations of the operands are not false for the run-time shapes [cs] under
@@ -364,21 +370,21 @@ Proof.
   destruct (Nat.eqb_spec R 0) as [E0|N0].
   - injection Hb as <-. rewrite E0 in Hlen. destruct cr; [constructor|discriminate].
   - destruct (all_some_nth _ _ Hb) as [Hl Hn]. rewrite map_length, seq_length in Hl.
-    apply (Forall2_nth _ _ _ DUnk 1); [lia|]. intros i Hi. rewrite Hl in Hi.
+    apply (Forall2_nth _ _ _ DUnk 1); [tlia|]. intros i Hi. rewrite Hl in Hi.
     specialize (Hn i DUnk). rewrite map_length, seq_length in Hn. specialize (Hn Hi).
     rewrite (nth_indep _ None (resolve_axis (map (pad_to R) S) 0)) in Hn by (rewrite map_length, seq_length; exact Hi).
     rewrite map_nth, seq_nth in Hn by exact Hi. rewrite Nat.add_0_l in Hn. unfold resolve_axis in Hn. rewrite map_map in Hn.
     replace (nth i cr 1) with (dim_at cr (R - 1 - i)).
-    2:{ unfold dim_at. rewrite rev_nth by lia. f_equal. lia. }
+    2:{ unfold dim_at. rewrite rev_nth by tlia. f_equal. tlia. }
     eapply col_sound_P; [|apply (Hcol (R - 1 - i))|exact Hn].
-    apply cols_ok; auto. intros s Hs. apply list_max_nat_ge, in_map, Hs.
+    apply cols_ok; au. intros s Hs. apply list_max_nat_ge, in_map, Hs.
 Qed.
 
 Theorem broadcast_dims_sound rho shapes cs r cr :
   broadcast_shape_dims shapes = Some r -> Forall2 (shape_ok rho) shapes cs -> bcast_list cs = Some cr ->
   shape_ok rho r cr.
 Proof.
-  rewrite broadcast_shape_dims_eq. intros Hb HF Hc. eapply bsd_spec_sound; eauto. now apply bcast_list_Broadcast.
+  rewrite broadcast_shape_dims_eq. intros Hb HF Hc. eapply bsd_spec_sound; eau. now apply bcast_list_Broadcast.
 Qed.
 
 (* the binary form: every KNOWN dim of the merged annotation equals the corresponding dim of the numpy broadcast *)
@@ -389,11 +395,11 @@ Corollary broadcast_dims_sound2 rho a b ca cb r cr :
 Proof.
   intros Hb Ha Hb' Hc.
   assert (H : shape_ok rho r cr).
-  { eapply broadcast_dims_sound; eauto. rewrite bcast_list_2, bcast_nil_r. exact Hc. }
+  { eapply broadcast_dims_sound; eau. rewrite bcast_list_2, bcast_nil_r. exact Hc. }
   split; [exact (F2_length _ _ _ H)|].
   clear -H. induction H as [|d c r cr Hd HF IH]; intros [|i] d' E n Hn; simpl in *; try discriminate.
-  - injection E as <-. f_equal. symmetry. eapply dim_ok_denote; eauto.
-  - eapply IH; eauto.
+  - injection E as <-. f_equal. symmetry. eapply dim_ok_denote; eau.
+  - eapply IH; eau.
 Qed.
 
 (* the merged annotation may say LESS: symbols that cannot be identified make the function give up *)
@@ -430,17 +436,17 @@ Proof.
   destruct force.
   - erewrite (py_for_pair_snoc (fun _ : dim => DUnk) (fun _ _ => true)); [|intros; reflexivity].
     replace (fold_left (fun (_ : bool) (_ : dim) => true) (d :: l) false) with true; [reflexivity|].
-    simpl. generalize l. intro l0. induction l0; simpl; auto.
+    simpl. generalize l. intro l0. induction l0; simpl; au.
   - erewrite (py_for_pair_snoc (fun x : dim => x) (fun _ c => c)).
     2:{ intros x c acc. cbv beta iota. rewrite dim_is_known_true, normalize_dim_id. reflexivity. }
     replace (fold_left (fun (c : bool) (_ : dim) => c) (d :: l) false) with false; [reflexivity|].
-    generalize (d :: l). intro l0. induction l0; simpl; auto.
+    generalize (d :: l). intro l0. induction l0; simpl; au.
 Qed.
 
 Definition weaker_dim (d d' : dim) : Prop := d' = DUnk \/ d' = d.
 
 Lemma weaker_all_unknown l : Forall2 weaker_dim l (map (fun _ => DUnk) l).
-Proof. induction l; simpl; constructor; auto. left. reflexivity. Qed.
+Proof. induction l; simpl; constructor; au. left. reflexivity. Qed.
 
 Theorem unknown_shape_like_weakens dims force l' : unknown_shape_like dims force = Some l' ->
   exists l, dims = Some l /\ Forall2 weaker_dim l l'.
@@ -456,7 +462,7 @@ Proof. rewrite unknown_shape_like_eq. destruct dims as [[|d l]|]; reflexivity. Q
 (* inside Loop/Scan bodies annotations become rank-only *)
 Theorem unknown_shape_like_forced d l : unknown_shape_like (Some (d :: l)) true = Some (repeat DUnk (S (length l))).
 Proof.
-  rewrite unknown_shape_like_eq. simpl. f_equal. f_equal. induction l; simpl; congruence.
+  rewrite unknown_shape_like_eq. simpl. f_equal. f_equal. induction l; simpl; cong.
 Qed.
 
 (* hand model of _loosen_graph_value_shapes as a function on annotation tables.  [io] = names of the graph's own
@@ -479,7 +485,7 @@ Theorem loosen_weakens io produced force a v :
   end.
 Proof.
   unfold loosen. assert (Hid : match a v with Some l' => exists l, a v = Some l /\ Forall2 weaker_dim l l' | None => a v = None end).
-  { destruct (a v) as [l|]; [|reflexivity]. exists l. split; [reflexivity|]. induction l; constructor; auto. right. reflexivity. }
+  { destruct (a v) as [l|]; [|reflexivity]. exists l. split; [reflexivity|]. induction l; constructor; au. right. reflexivity. }
   destruct (str_mem v io); [exact Hid|]. destruct (str_mem v produced); [|exact Hid].
   destruct (unknown_shape_like (a v) force) as [s|] eqn:E; [|exact Hid].
   exact (unknown_shape_like_weakens _ _ _ E).
@@ -490,8 +496,8 @@ Lemma weaker_nth l l' : Forall2 weaker_dim l l' -> forall i d', nth_error l' i =
   d' = DUnk \/ nth_error l i = Some d'.
 Proof.
   induction 1 as [|d d2 l l2 Hd F IH]; intros [|i] d' Hn; simpl in *; try discriminate.
-  - injection Hn as <-. destruct Hd as [->| ->]; auto.
-  - eauto.
+  - injection Hn as <-. destruct Hd as [->| ->]; au.
+  - eau.
 Qed.
 
 Corollary loosen_weakens_dim io produced force a v l' i d' :
@@ -500,14 +506,14 @@ Corollary loosen_weakens_dim io produced force a v l' i d' :
 Proof.
   intros H Hn. pose proof (loosen_weakens io produced force a v) as W. rewrite H in W.
   destruct W as (l & E & F). destruct (weaker_nth _ _ F _ _ Hn) as [->|Hd]; [left; reflexivity|right].
-  exists l. repeat split; auto. exact (F2_length _ _ _ F).
+  exists l. repeat split; au. exact (F2_length _ _ _ F).
 Qed.
 
 (* weakening preserves truth *)
 Lemma weaker_ok rho l l' c : Forall2 weaker_dim l l' -> shape_ok rho l c -> shape_ok rho l' c.
 Proof.
   intro F. revert c. induction F as [|d d2 l l2 Hd F IH]; intros c H; inversion H; subst; constructor.
-  - destruct Hd as [->| ->]; simpl; auto.
+  - destruct Hd as [->| ->]; simpl; au.
   - apply IH. assumption.
 Qed.
 Theorem loosen_preserves_truth rho io produced force a v c :
@@ -515,7 +521,7 @@ Theorem loosen_preserves_truth rho io produced force a v c :
 Proof.
   intro H. pose proof (loosen_weakens io produced force a v) as W.
   destruct (loosen io produced force a v) as [l'|]; [|exact I].
-  destruct W as (l & E & F). rewrite E in H. simpl in *. eapply weaker_ok; eauto.
+  destruct W as (l & E & F). rewrite E in H. simpl in *. eapply weaker_ok; eau.
 Qed.
 
 (* ================================================================= 5. _refresh_elementwise_output_shape (hand model) *)
@@ -597,13 +603,13 @@ Definition kept_rank (ps : list (operand * list nat)) : nat :=
   list_max_nat (map (fun p => length (snd p)) (filter keptb ps)).
 
 Lemma list_max_nat_le l K : (forall x, In x l -> x <= K) -> list_max_nat l <= K.
-Proof. induction l as [|y l IH]; intro H; simpl; [lia|]. pose proof (H y (or_introl eq_refl)). specialize (IH (fun x Hx => H x (or_intror Hx))). lia. Qed.
+Proof. induction l as [|y l IH]; intro H; simpl; [tlia|]. pose proof (H y (or_introl eq_refl)). specialize (IH (fun x Hx => H x (or_intror Hx))). tlia. Qed.
 
 Lemma dim_at_ones c k : Forall (fun x => x = 1) c -> dim_at c k = 1.
 Proof.
   intro H. unfold dim_at. apply Forall_rev in H. revert k. induction H as [|x l Hx H IH]; intro k.
   - apply nth_nil_1.
-  - destruct k; simpl; auto.
+  - destruct k; simpl; au.
 Qed.
 
 Lemma candidates_ok rho ps : operands_ok rho ps ->
@@ -614,9 +620,9 @@ Proof.
   assert (Hok' : operands_ok rho ps) by (intros o' c' Hin; apply Hok; right; exact Hin).
   assert (Hdecl' : forall o' c', In (o', c') ps -> is_scalar_const o' = false -> op_shape o' <> None)
     by (intros o' c' Hin; apply (Hdecl o' c'); right; exact Hin).
-  unfold keptb at 1. simpl fst. destruct (is_scalar_const o) eqn:Es; simpl; [apply IH; auto|].
+  unfold keptb at 1. simpl fst. destruct (is_scalar_const o) eqn:Es; simpl; [apply IH; au|].
   destruct (op_shape o) as [s|] eqn:Eo; [|exfalso; apply (Hdecl o c (or_introl eq_refl) Es Eo)].
-  simpl. constructor; [|apply IH; auto].
+  simpl. constructor; [|apply IH; au].
   destruct (Hok o c (or_introl eq_refl)) as [H _]. rewrite Eo in H. exact H.
 Qed.
 
@@ -632,10 +638,10 @@ Proof.
       * apply list_max_nat_ge. apply in_map_iff. exists (o, c). split; [reflexivity|].
         apply filter_In. split; [exact Hin|]. unfold keptb. simpl. now rewrite Es.
     + apply list_max_nat_le. intros x Hx. apply in_map_iff in Hx. destruct Hx as (p & <- & Hin).
-      apply filter_In in Hin. destruct Hin as [Hin _]. apply list_max_nat_ge. apply in_map_iff. exists p. auto.
+      apply filter_In in Hin. destruct Hin as [Hin _]. apply list_max_nat_ge. apply in_map_iff. exists p. au.
   - intro k. destruct (Hc k) as [H1 H2]. split.
     + intros x Hx. apply H1. rewrite map_map in *. apply in_map_iff in Hx. destruct Hx as (p & <- & Hin).
-      apply filter_In in Hin. destruct Hin as [Hin _]. apply in_map_iff. exists p. auto.
+      apply filter_In in Hin. destruct Hin as [Hin _]. apply in_map_iff. exists p. au.
     + destruct H2 as [H2|H2]; [left; exact H2|]. rewrite map_map in *. apply in_map_iff in H2.
       destruct H2 as ([o c] & E & Hin). simpl in E. destruct (is_scalar_const o) eqn:Es.
       * left. destruct (Hs o c Hin Es) as [Hones _]. rewrite <- E. apply dim_at_ones. exact Hones.
@@ -659,7 +665,7 @@ Proof.
       destruct (negb (is_scalar_const (fst p))); [discriminate|].
       destruct (find _ _); discriminate. }
   cbv zeta. destruct (broadcast_shape_dims (candidates (map fst ps))) as [mg|] eqn:Eb; [|contradiction].
-  simpl. eapply bsd_spec_sound; [rewrite <- broadcast_shape_dims_eq; exact Eb|apply candidates_ok; auto|].
+  simpl. eapply bsd_spec_sound; [rewrite <- broadcast_shape_dims_eq; exact Eb|apply candidates_ok; au|].
   apply Broadcast_drop_ones; [|apply bcast_list_Broadcast; exact Hb].
   intros o c Hin Es. split; [apply (Hok o c Hin); exact Es|apply (Hrank o c Hin Es)].
 Qed.
@@ -702,8 +708,8 @@ Proof.
     rewrite (shape_ok_map_length rho _ _ (candidates_ok rho ps Hok Hdecl)) in Eb.
     destruct (bcast_list_Broadcast _ _ Hb) as [Hl _].
     assert (length c <= length cr).
-    { rewrite Hl. apply list_max_nat_ge. rewrite map_map. apply in_map_iff. exists (o, c). auto. }
-    unfold kept_rank in Hlt. rewrite map_map in Eb. lia.
+    { rewrite Hl. apply list_max_nat_ge. rewrite map_map. apply in_map_iff. exists (o, c). au. }
+    unfold kept_rank in Hlt. rewrite map_map in Eb. tlia.
 Qed.
 
 (* ---- the repaired pass (proposed: do not skip one-element constants, they broadcast like any other operand).
@@ -742,7 +748,7 @@ Proof.
   2:{ exfalso. apply Hm. destruct ps; [reflexivity|]. unfold shape_source in Esrc. simpl in Esrc.
       destruct (negb (is_scalar_const (fst p))); [discriminate|]. destruct (find _ _); discriminate. }
   cbv zeta. destruct (broadcast_shape_dims (candidates_all (map fst ps))) as [mg|] eqn:Eb; [|contradiction].
-  simpl. eapply broadcast_dims_sound; [exact Eb|apply candidates_all_ok; auto|exact Hb].
+  simpl. eapply broadcast_dims_sound; [exact Eb|apply candidates_all_ok; au|exact Hb].
 Qed.
 Example refresh_fixed_on_witness :
   refresh_fixed (map fst refresh_witness) (Some [DInt 1; DInt 3]) = Some [DInt 1; DInt 3].
@@ -776,7 +782,7 @@ Fixpoint zlist_eqb (a b : list Z) : bool :=
 Lemma zlist_eqb_eq a : forall b, zlist_eqb a b = true -> a = b.
 Proof.
   induction a as [|x a IH]; intros [|y b] H; simpl in H; try discriminate; [reflexivity|].
-  apply andb_prop in H. destruct H as [H1 H2]. apply Z.eqb_eq in H1. subst. f_equal. auto.
+  apply andb_prop in H. destruct H as [H1 H2]. apply Z.eqb_eq in H1. subst. f_equal. au.
 Qed.
 
 Definition first_input_shape_ops : list string :=
@@ -881,13 +887,13 @@ Proof.
   destruct (str_mem (on_op n) broadcast_ops).
   { destruct (on_ins n) as [|x r] eqn:Ei; [discriminate|].
     destruct (all_some (map look1 (x :: r))) as [shapes|] eqn:E1; [|discriminate].
-    rewrite (all_some_map_mono look1 look2 (x :: r) shapes H E1). auto. }
+    rewrite (all_some_map_mono look1 look2 (x :: r) shapes H E1). au. }
   destruct (String.eqb (on_op n) "Transpose").
   { destruct (on_ins n) as [|x [|y r]]; try discriminate.
-    destruct (look1 x) as [s1|] eqn:E1; [|discriminate]. rewrite (H x s1 (or_introl eq_refl) E1). auto. }
+    destruct (look1 x) as [s1|] eqn:E1; [|discriminate]. rewrite (H x s1 (or_introl eq_refl) E1). au. }
   destruct (String.eqb (on_op n) "Reshape"); [|discriminate].
   destruct (on_ins n) as [|x [|t [|z r]]]; try discriminate.
-  destruct (look1 x) as [s1|] eqn:E1; [|discriminate]. rewrite (H x s1 (or_introl eq_refl) E1). auto.
+  destruct (look1 x) as [s1|] eqn:E1; [|discriminate]. rewrite (H x s1 (or_introl eq_refl) E1). au.
 Qed.
 
 Section RelativeTruth.
@@ -929,14 +935,14 @@ Section RelativeTruth.
     (forall n, In n nodes -> node_ok g n = true) -> (forall n, In n nodes -> runtime_obeys n) ->
     (forall v, In v T -> annot_true v) -> forall v, In v (derive nodes T) -> annot_true v.
   Proof.
-    induction nodes as [|n r IH]; intros T Hok Hrt HT v Hv; simpl in Hv; [auto|].
+    induction nodes as [|n r IH]; intros T Hok Hrt HT v Hv; simpl in Hv; [au|].
     apply (IH _ (fun n' H' => Hok n' (or_intror H')) (fun n' H' => Hrt n' (or_intror H'))) in Hv; [exact Hv|].
     clear Hv v. intros v Hv.
-    destruct (forallb (fun v => str_mem v T) (on_ins n)) eqn:Ef; simpl in Hv; [|auto].
-    destruct (rule_on g (lookup_static g) n) as [s|] eqn:Er; [|auto].
-    destruct (hd_error (on_outs n)) as [o|] eqn:Eo; [|auto].
-    destruct Hv as [<-|Hv]; [|auto].
-    apply (annot_step n); auto.
+    destruct (forallb (fun v => str_mem v T) (on_ins n)) eqn:Ef; simpl in Hv; [|au].
+    destruct (rule_on g (lookup_static g) n) as [s|] eqn:Er; [|au].
+    destruct (hd_error (on_outs n)) as [o|] eqn:Eo; [|au].
+    destruct Hv as [<-|Hv]; [|au].
+    apply (annot_step n); au.
     - apply Hok. left. reflexivity.
     - apply Hrt. left. reflexivity.
     - intros x Hx. apply HT. apply str_mem_In. rewrite forallb_forall in Ef. now apply Ef.
@@ -958,7 +964,7 @@ Definition ex_model (out_shape : list dim) : omodel :=
 Example annot_consistent_rejects : annot_consistent (ex_model [DInt 4]) = false. Proof. vm_compute. reflexivity. Qed.
 Example annot_consistent_accepts : annot_consistent (ex_model [DInt 1; DInt 4]) = true /\ rule_applies (ex_model [DInt 1; DInt 4]) = 1
   /\ derived_count (ex_model [DInt 1; DInt 4]) = 1.
-Proof. vm_compute. auto. Qed.
+Proof. vm_compute. au. Qed.
 
 (* ================================================================= 7. the operator sets the propagation passes act on *)
 (* propagate_unary_shapes_ir copies the first input's shape to the output for UNARY_DATAFLOW_OPS: every such operator
